@@ -208,7 +208,9 @@ func hostileGenesis(r *rand.Rand, collide, ck int) *ct.GenesisState {
 		}
 	}
 	r.Shuffle(len(gs.TokenPairList), func(i, j int) { gs.TokenPairList[i], gs.TokenPairList[j] = gs.TokenPairList[j], gs.TokenPairList[i] })
-	r.Shuffle(len(gs.UsedNoncesList), func(i, j int) { gs.UsedNoncesList[i], gs.UsedNoncesList[j] = gs.UsedNoncesList[j], gs.UsedNoncesList[i] })
+	r.Shuffle(len(gs.UsedNoncesList), func(i, j int) {
+		gs.UsedNoncesList[i], gs.UsedNoncesList[j] = gs.UsedNoncesList[j], gs.UsedNoncesList[i]
+	})
 	return gs
 }
 
